@@ -14,6 +14,8 @@ key wire form (argument and result):
   c08.parseSet <[JSON object…]>  → outcome([key…])          the loop of jwk.ParseSet
   c08.newPrivate <GoPriv wire>   → outcome(key)             jwk.NewPrivateKey
   c08.newPublic <GoPub wire>     → outcome(key)             jwk.NewPublicKey
+  c08.setPrivate <key> <GoPriv wire> → key (with raw)       (*Key).SetPrivateKey
+  c08.setPublic <key> <GoPub wire>   → key (with raw)       (*Key).SetPublicKey
   c08.pem <bytes>                → outcome([key, rest])     jwk.DecodePEM
   c08.spec <material> <params> <extras> → JSON object whose encoded values are "hex:<octets>"
         (Spec.IANA.specEncode with enc = hex; material = ["ec",crv,x,y,d|_] | ["rsa",n,e,_|[d,p,q,_|[dp,dq,qi],[[r,d,t]…]]]
@@ -51,6 +53,12 @@ def keyToWire (k : Key) : Wire :=
                 | some l => .arr (l.map fun c => .arr [.bytes c.raw, c.pub.toWire]) | none => .none),
         ("x5t", Wire.ofOptBytes k.x5t), ("x5t#S256", Wire.ofOptBytes k.x5tS256),
         ("priv", k.priv.toWire), ("pub", k.pub.toWire)]
+
+/-- key wire form including `Raw` (argument form of the re-keying ops) -/
+def keyToWireRaw (k : Key) : Wire :=
+  match keyToWire k with
+  | .obj kvs => .obj (("raw", .obj k.raw) :: kvs)
+  | w => w
 
 open Spec.IANA in
 def ecCurveOf (s : String) : ECCurve :=
@@ -99,6 +107,8 @@ def ops : OpTable := [
   ("c08.parseSet", fun a => ((fun l => Wire.arr (l.map keyToWire)) <$> parseSetKeys (arg a 0).asArr).toOp),
   ("c08.newPrivate", fun a => (keyToWire <$> newPrivateKey (GoPriv.ofWire (arg a 0))).toOp),
   ("c08.newPublic", fun a => (keyToWire <$> newPublicKey (GoPub.ofWire (arg a 0))).toOp),
+  ("c08.setPrivate", pureOp fun a => keyToWireRaw (setPrivateKey (keyOfWire (arg a 0)) (GoPriv.ofWire (arg a 1)))),
+  ("c08.setPublic", pureOp fun a => keyToWireRaw (setPublicKey (keyOfWire (arg a 0)) (GoPub.ofWire (arg a 1)))),
   ("c08.pem", fun a => ((fun (k, rest) => Wire.arr [keyToWire k, .bytes rest]) <$> decodePEM (arg a 0).asBytes).toOp),
   ("c08.spec", pureOp fun a =>
       .obj (Spec.IANA.specEncode hexEnc hexEnc (materialOfWire (arg a 0)) (paramsOfWire (arg a 1)) (arg a 2).asObj)),
